@@ -246,7 +246,7 @@ func runC20(c *fw.Ctx) {
 			}
 		} else if len(ld.Archs) == 3 && c.Thorough() {
 			n2++
-			if n2%40 == 7 {
+			if n2%20 == 1 {
 				extra[ld.Tag] = ld
 				tags = append(tags, ld.Tag)
 			}
@@ -308,6 +308,9 @@ func runC20(c *fw.Ctx) {
 					}
 					if isExtra {
 						f3, f2 = 3, 6
+						if c.Thorough() {
+							f3, f2 = 4, 8
+						}
 					}
 					for _, av := range answerVectors(d, f3, f2) {
 						k := base
